@@ -212,6 +212,30 @@ func scenarioC07(r *Run) {
 			}
 		}
 	}
+	lastEstSeq := map[*Peer]uint32{}
+	// white box: every UP-chosen TEID of a live PDR is still marked as taken in the
+	// generator (a TEID released while its PDR lives is handed out again once the
+	// cursor has come round)
+	checkMarked := func(ctx string) {
+		if !r.AgentAlive() || r.Agent == nil {
+			return
+		}
+		a := r.Agent
+		for _, s := range r.LiveSessions() {
+			for _, p := range s.PDRs {
+				if !p.TEIDChoose || p.GotTEID == 0 {
+					continue
+				}
+				marked := true
+				id := p.GotTEID
+				vsim.Ephemeral(func() { marked = a.VerifTEIDAllocated(id) })
+				if !marked {
+					r.Violate("C07", "teid-of-live-pdr-released", "%s: TEID %d, chosen for PDR %d of live session cp=%d, is no longer marked as taken in the agent's generator: it will be chosen again for somebody else", ctx, id, p.ID, s.CPSEID)
+					return
+				}
+			}
+		}
+	}
 	rounds := 3 + r.Ch.Choose(6, "rounds")
 	for round := 0; round < rounds && r.AgentAlive() && len(r.Violations) == 0; round++ {
 		if r.Ch.Choose(3, "concurrent") == 1 && np > 1 {
@@ -245,7 +269,22 @@ func scenarioC07(r *Run) {
 		} else {
 			p := r.Peers[r.Ch.Choose(np, "peer")]
 			s := g.Session(p, SessShape{TEIDChoose: true, ExtraPDRs: r.Ch.Choose(2, "ex")})
+			// the control plane may number this request like its last establishment
+			// (restarted counter): another session all the same, with identifiers of its own
+			reuse := lastEstSeq[p] != 0 && r.Ch.Choose(4, "est-seq-reused") == 1
+			savedSeq := p.seq
+			if reuse {
+				p.seq = lastEstSeq[p] - 1
+				r.Probe("establishment-reuses-the-sequence-number-of-the-last-one")
+			}
 			res := p.Establish(s)
+			usedSeq := p.seq
+			if reuse {
+				p.seq = savedSeq
+			}
+			if res.Accepted {
+				lastEstSeq[p] = usedSeq
+			}
 			r.Op("establish peer%d cp=%d -> accepted=%v cause=%d up=%d", p.Idx, s.CPSEID, res.Accepted, res.Cause, s.UPSEID)
 			r.Skel(fmt.Sprintf("est:%v", res.Accepted))
 			if res.Accepted {
@@ -327,6 +366,24 @@ func scenarioC07(r *Run) {
 				}
 			}
 		}
+		if live := r.LiveSessions(); len(live) > 0 && !up4 && len(r.Violations) == 0 && r.Ch.Choose(4, "remove-pdr-before-chosen") == 1 {
+			// a modification removes the PDR that precedes, in the session's list, a PDR
+			// with a UP-chosen TEID: that TEID stays taken
+			s := live[r.Ch.Choose(len(live), "rpc-which")]
+			for k := 1; k < len(s.PDRs); k++ {
+				if s.PDRs[k].TEIDChoose && s.PDRs[k].GotTEID != 0 && !s.PDRs[k-1].TEIDChoose {
+					victim := s.PDRs[k-1].ID
+					mr := s.Peer.Modify(s, &ModSpec{Tag: "rP:before-chosen", RemovePDR: []uint16{victim}})
+					r.Op("modify cp=%d: remove PDR %d, which precedes PDR %d (UP-chosen TEID %d) -> accepted=%v", s.CPSEID, victim, s.PDRs[min(k, len(s.PDRs)-1)].ID, s.PDRs[min(k, len(s.PDRs)-1)].GotTEID, mr.Accepted)
+					r.Skel(fmt.Sprintf("mod:rP:before-chosen:%v", mr.Accepted))
+					if mr.Accepted {
+						r.Probe("pdr-before-a-chosen-teid-pdr-removed")
+					}
+					break
+				}
+			}
+		}
+		checkMarked(fmt.Sprintf("round %d", round))
 		if live := r.LiveSessions(); len(live) > 0 && r.Ch.Choose(3, "del") == 1 {
 			s := live[r.Ch.Choose(len(live), "which")]
 			armed := up4 && r.Ch.Choose(2, "deletion-refused") == 1
